@@ -52,6 +52,16 @@ class _Shape(ast.NodeTransformer):
                 node.left, node.comparators = r, [l]
         return node
 
+    def visit_comprehension(self, node):
+        self.generic_visit(node)
+        # `for x in xs if a if b` is `for x in xs if a and b`
+        if len(node.ifs) > 1:
+            vals = []
+            for t in node.ifs:
+                vals.extend(t.values if isinstance(t, ast.BoolOp) and isinstance(t.op, ast.And) else [t])
+            node.ifs = [ast.copy_location(ast.BoolOp(op=ast.And(), values=vals), node.ifs[0])]
+        return node
+
     def visit_BoolOp(self, node):
         self.generic_visit(node)
         flat = []
